@@ -30,7 +30,7 @@ def check(src, rep):
     sk = hdlc_skeleton(m)
     emit_h(rep, m, [r for r in sk if r.tag == "release"], {"release": "R1"})
     emit_h(rep, m, [r for r in length_guard(m) if r.tag == "cap"], {"cap": "R2"})
-    emit_h(rep, m, [r for r in hdlc_buffer(m) if r.instance in ("trim-to-position", "trim-to-flag", "pop")], {"buffer": "R1"})
+    emit_h(rep, m, [r for r in hdlc_buffer(m) if r.instance in ("trim-to-position", "trim-to-flag", "pop", "trim-keeps-consumed")], {"buffer": "R1", "release": "R1"})
     # raw history: rows that grow it without growing the frame
     bad = 0
     grow = 0
@@ -61,7 +61,7 @@ def check(src, rep):
     rep.count("p1_step_paths", len(p.paths))
     eg = p1model.exit_and_guard(p)
     emit_p(rep, p, eg, {"release": "R1", "cap": "R2", "trip": "R3", "unconsumed": "R4"})
-    emit_p(rep, p, [r for r in p1model.buffer_contracts(p) if r.instance in ("pop", "clear", "trim-to-position", "trim-to-start")], {"buffer": "R1"})
+    emit_p(rep, p, [r for r in p1model.buffer_contracts(p) if r.instance in ("pop", "clear", "trim-to-position", "trim-to-start", "trim-keeps-consumed")], {"buffer": "R1", "release": "R1"})
     # keep rows are the only growth of the collected lines and the step never stores anything else
     for pp in p.paths:
         for op in pp.post.raw_ops:
